@@ -302,6 +302,17 @@ type c09CHSpec struct {
 	OtherNameFirst bool // a non-host_name entry precedes the host name in the server_name_list
 }
 
+// c09CHClass names the input classes for which a deviation is reported under its own signature.
+func c09CHClass(sp c09CHSpec) string {
+	switch {
+	case sp.SNIPos >= 0 && sp.SNILen == 0:
+		return "|empty-host-name"
+	case sp.ECHPos >= 0 && sp.SNIPos < 0:
+		return "|ech-without-sni"
+	}
+	return ""
+}
+
 var c09FillTypes = []uint16{5, 10, 11, 13, 16, 18, 23, 27, 35, 43, 45, 51, 57, 0x4469, 0x44cd, 0xff01, 0x0a0a, 0x1a1a, 0xfafa, 21}
 
 // c09MakeCH builds a structurally well-formed ClientHello handshake message and returns it
